@@ -21,7 +21,7 @@ func init() {
 		Run:      runC17,
 		Explanation: "Decides the structure of the service state machine from source: (R1) BasicService.state and Manager.state are assigned only in the transition function / serviceStateChanged; (R2) the set of (from,to) pairs of all switchState/mustSwitchState calls (variables resolved path-sensitively) equals the property's transition table, and each transition closure notifies listeners exactly once with the matching callback, source state and terminal flag; " +
 			"(R3) start, run and stop functions have one call site each, run and stop are unreachable after a failed start, stop is reached on every path after a successful start, the service context is cancelled by a plain call that dominates the stop call, main is spawned only by the New→Starting transition; (R4) on every path of main and of StopAsync's transition both waiter channels are closed exactly once (closures inlined per path); " +
-			"(R6) listener buffer capacity ≥ longest transition chain; (R7) the failure cause is overwritten by the stop error only when nil; (R8) manager state decision table: healthy ⇔ all running, stopped ⇔ all terminal, unknown otherwise, exactly one assignment per notification, healthy latch closed only once-guarded. Also: (R5) stateMu / Manager.mu guard the state, failure cause, listeners and name (lockset; transition closures inherit the lock); (R9) StopAsync cancels on the result of the atomic switch (a racing start is not lost); (R10) failure fan-in: every failure report is delivered with a blocking send; (R11) listener registry keyed by identity: the remove function takes out the channel its AddListener registered; (R12) timer service: an iteration's error is the run function's result on every path; (R13) the transition function is an atomic compare-and-set: the state is written ⇔ it equals the expected state, both under one hold of the write lock. NOT decided: waiter wake-up liveness, listener delivery order across goroutines, manager aggregation over all interleavings.",
+			"(R6) listener buffer capacity ≥ longest transition chain; (R7) the failure cause is overwritten by the stop error only when nil; (R8) manager state decision table: healthy ⇔ all running, stopped ⇔ all terminal, unknown otherwise, exactly one assignment per notification, healthy latch closed only once-guarded. Also: (R5) stateMu / Manager.mu guard the state, failure cause, listeners and name (lockset; transition closures inherit the lock); (R9) StopAsync cancels on the result of the atomic switch (a racing start is not lost); (R10) failure fan-in: every failure report is delivered with a blocking send; (R11) listener registry keyed by identity: the remove function takes out the channel its AddListener registered; (R12) timer service: an iteration's error is the run function's result on every path; (R13) the transition function is an atomic compare-and-set: the state is written ⇔ it equals the expected state, both under one hold of the write lock; (R14) manager queries answer from the decided state: IsHealthy/IsStopped compare it, AwaitHealthy returns nil ⇔ state == healthy; (R15) manager notifications are produced only by the state decision: listener callbacks are built and queued nowhere else; Failure is queued ⇔ the service entered Failed. NOT decided: waiter wake-up liveness, listener delivery order across goroutines, manager aggregation over all interleavings.",
 	}
 }
 
